@@ -17,6 +17,7 @@ import (
 	"reflect"
 	"runtime"
 	"sort"
+	"strings"
 	"sync"
 	"sync/atomic"
 	"time"
@@ -113,7 +114,45 @@ type world struct {
 	conns  []net.Conn
 }
 
-func newWorld() (*world, error) {
+func newWorld() (*world, error) { return newWorldMode(true) }
+
+// localMode: the agents of the next choreographies are built for a locally attached token (NewServer(addr, false)).
+var localMode bool
+
+// findShim looks for the *shimagent.Server inside whatever the yubiagent server is made of (it may be wrapped).
+func findShim(v reflect.Value, depth int) *shimagent.Server {
+	if depth > 6 || !v.IsValid() {
+		return nil
+	}
+	switch v.Kind() {
+	case reflect.Interface, reflect.Ptr:
+		if v.IsNil() {
+			return nil
+		}
+		if v.CanInterface() {
+			if s, ok := v.Interface().(*shimagent.Server); ok {
+				return s
+			}
+		}
+		return findShim(v.Elem(), depth+1)
+	case reflect.Struct:
+		for i := 0; i < v.NumField(); i++ {
+			f := v.Field(i)
+			if !f.CanInterface() {
+				continue
+			}
+			if s := findShim(f, depth+1); s != nil {
+				return s
+			}
+		}
+	}
+	return nil
+}
+
+func newWorldMode(remote bool) (*world, error) {
+	if localMode {
+		remote = false
+	}
 	dir, err := os.MkdirTemp("", "verif-c20-")
 	if err != nil {
 		return nil, err
@@ -136,22 +175,27 @@ func newWorld() (*world, error) {
 			go func() { _ = agent.ServeAgent(keyring, c); c.Close() }()
 		}
 	}()
-	srv, err := yubiagent.NewServer(sock, true)
+	if !remote {
+		// a locally attached token needs the PIV tool on PATH: a stand-in that lists one slot
+		tool := filepath.Join(dir, "bin")
+		if err := os.MkdirAll(tool, 0o755); err == nil {
+			_ = os.WriteFile(filepath.Join(tool, "yubico-piv-tool"), []byte("#!/bin/sh\necho 'Slot 9a:'\nexit 0\n"), 0o755)
+			if !strings.Contains(os.Getenv("PATH"), tool) {
+				os.Setenv("PATH", tool+string(os.PathListSeparator)+os.Getenv("PATH"))
+			}
+		}
+	}
+	srv, err := yubiagent.NewServer(sock, remote)
 	if err != nil {
 		w.close()
 		return nil, err
 	}
 	w.srv = srv
-	// the concrete server embeds the shim in the exported field ShimAgent
-	v := reflect.ValueOf(srv)
-	if v.Kind() != reflect.Ptr || v.Elem().Kind() != reflect.Struct || !v.Elem().FieldByName("ShimAgent").IsValid() {
+	// the shim is somewhere inside the concrete server (the exported field ShimAgent in the pinned source)
+	shim := findShim(reflect.ValueOf(srv), 0)
+	if shim == nil {
 		w.close()
-		return nil, fmt.Errorf("yubiagent.NewServer: unexpected concrete type %T", srv)
-	}
-	shim, ok := v.Elem().FieldByName("ShimAgent").Interface().(*shimagent.Server)
-	if !ok {
-		w.close()
-		return nil, fmt.Errorf("yubiagent server does not wrap a *shimagent.Server")
+		return nil, fmt.Errorf("no *shimagent.Server found inside %T", srv)
 	}
 	w.shim = shim
 	return w, nil
@@ -719,6 +763,15 @@ func runC20(c *core.Ctx) {
 			agedCase(c, n, code)
 		}
 	}
+
+	// agents built for a locally attached token (the PIV tool on PATH) wait and release like the others
+	localMode = true
+	runSched(c, "local-token-agent", []cev{W(1, 11), W(2, 12), W(3, 11), R(19), R(11), W(4, 13), R(12), R(13)})
+	runSched(c, "local-token-agent", []cev{W(1, 35), W(2, 20), RB(26, 1), RB(20, 1), R(35)})
+	for _, code := range []byte{11, 0, 39} {
+		agedCase(c, 1, code)
+	}
+	localMode = false
 
 	// two agents in one process
 	for _, code := range []byte{11, 13, 0, 39} {
